@@ -1,6 +1,7 @@
 //! qv — bounded-exhaustive checks of the properties in /verif/properties.jsonl against /repo.
 //! usage: qv <ID> <quick|thorough> [--replay <file>]
 mod c06;
+mod c11;
 mod common;
 mod grids;
 mod probe;
@@ -52,6 +53,7 @@ fn main() {
         .unwrap();
     let report = match id.as_str() {
         "C06" => c06::run(&ctx),
+        "C11" => c11::run(&ctx),
         "probe" => {
             probe::run();
             std::process::exit(0)
